@@ -1,11 +1,11 @@
 (* C17 — Turbotunnel packet adapters: no surfaced errors, leaks or aliasing.
-   Statements only; proofs are in Proofs/{GoHeap,ClientMap,QueueConn,QueueOut,Redial}Proofs.v.
+   Statements only; proofs are in Proofs/{GoHeap,ClientMap,QueueConn,QueueOut,Redial,RedialOverlap}Proofs.v.
    Models: Model/GoHeap.v (container/heap), Model/ClientMap.v (clientMapInner, explicit clock),
    Model/QueueConn.v (QueuePacketConn), Model/Redial.v (RedialPacketConn; error channel capacity
    0 = the pinned code, 1 = the repaired code). *)
 From Coq Require Import List NArith ZArith Bool Arith Lia Permutation.
 From Snow Require Import Model.GoHeap Model.ClientMap Model.QueueConn Model.Redial.
-From Snow Require Import Proofs.GoHeapProofs Proofs.ClientMapProofs Proofs.QueueConnProofs Proofs.QueueOutProofs Proofs.RedialProofs.
+From Snow Require Import Proofs.GoHeapProofs Proofs.ClientMapProofs Proofs.QueueConnProofs Proofs.QueueOutProofs Proofs.RedialProofs Proofs.RedialOverlapProofs.
 Import ListNotations.
 
 (* ================================================================ container/heap (GoHeap.v) *)
@@ -233,6 +233,40 @@ Proof.
   intros ecap qcap s H. split.
   - intros. eapply redial_one_active_carrier; eauto.
   - intros. eapply redial_at_most_one_open; eauto.
+Qed.
+
+(* "closed" = conn.Close() has RETURNED in the dial loop.  The close count of a carrier changes in one
+   step only, LDCloseCarrier: a step of the dial loop itself, taken after exchange returned (DClose k)
+   and before the loop goes round (DTop) -- never by another thread, never at another moment.  A
+   Close() that takes long is that step scheduled late.  (A loop that closes the finished carrier
+   with `go conn.Close()` is not this machine; the driver's carriers whose Close blocks until the
+   script releases it tie this reading to the code: "turbotunnel redials", observable oad.) *)
+Theorem C17_close_is_dial_loop_step :
+  forall ecap qcap s l s' k c c', step ecap qcap s l = Some s' ->
+    nth_error (r_cs s) k = Some c -> nth_error (r_cs s') k = Some c' -> c_nclose c' <> c_nclose c ->
+    l = LDCloseCarrier /\ r_d s = DClose k /\ r_d s' = DTop /\ c_nclose c' = S (c_nclose c).
+Proof. exact redial_close_is_dial_loop_step. Qed.
+
+(* at the moment dialContext hands out a carrier (any schedule, any behaviour of the carriers, however
+   long their Close takes) every carrier obtained earlier is closed -- the number of carriers open at a
+   dial is 0 -- and afterwards the new carrier is the only open one *)
+Theorem C17_no_open_carrier_at_dial :
+  forall ecap qcap s s', reachable ecap qcap s -> step ecap qcap s LDialOk = Some s' ->
+    (forall k c, nth_error (r_cs s) k = Some c -> c_closed c = true) /\
+    (exists c', nth_error (r_cs s') (length (r_cs s)) = Some c' /\ c_closed c' = false) /\
+    (forall k c, nth_error (r_cs s') k = Some c -> c_closed c = false -> k = length (r_cs s)).
+Proof. exact redial_no_open_carrier_at_dial. Qed.
+
+(* hypotheses are satisfiable: a second dial after a redial, with the first carrier closed *)
+Example C17_dial_after_redial_satisfiable :
+  exists s s' c, reachable 1 8 s /\ step 1 8 s LDialOk = Some s' /\
+                 nth_error (r_cs s) 0 = Some c /\ c_nclose c = 1 /\ length (r_cs s') = 2.
+Proof.
+  exists (mkrs false ENone DDial [mkcar RDone WSel (mkch 0 true) ch_new 1] 0 0 false false).
+  eexists. exists (mkcar RDone WSel (mkch 0 true) ch_new 1).
+  split; [exists [LDTop; LDialOk; LRTopDefault 0; LReadFail 0; LRSendBuf 0; LDRecvR; LDCloseCarrier; LDTop];
+          vm_compute; reflexivity|].
+  split; [vm_compute; reflexivity|]. split; [reflexivity|]. split; reflexivity.
 Qed.
 
 (* every carrier obtained is closed exactly once: never twice, and whenever the dial loop is not
